@@ -124,13 +124,27 @@ let () =
       let c0 = conn_new { ci_buf = []; ci_in = { in_bytes = data; in_sched = []; in_err = false } } in
       let buf = Buffer.create 256 in
       let step = cstep_inst url_parse reason ct_text true in
+      let model_steps = ref [] in        (* (unread bytes before the step, the step's observation text) *)
       let _ = List.fold_left (fun c o ->
           let (r, c') = step c o in
           let n0 = List.length c.c_wire in
           let delta = List.filteri (fun i _ -> i >= n0) c'.c_wire in
-          Buffer.add_string buf (Printf.sprintf "%s rs=%s ws=%s rdy=%s w=%s ; " (res_str r) (rs_str c'.c_rs) (ws_str c'.c_ws)
-                                   (b01 (is_ready c')) (tok_of_bytes delta));
+          let txt = Printf.sprintf "%s rs=%s ws=%s rdy=%s w=%s" (res_str r) (rs_str c'.c_rs) (ws_str c'.c_ws)
+              (b01 (is_ready c')) (tok_of_bytes delta) in
+          model_steps := (c.c_in.ci_buf @ c.c_in.ci_in.in_bytes, txt) :: !model_steps;
+          Buffer.add_string buf (txt ^ " ; ");
           c') c0 ops in
+      let model_steps = Array.of_list (List.rev !model_steps) in
+      (* HeadTooLong is justified only by 8192 unread bytes without the blank line that ends a head.  The unread
+         bytes are known as long as the implementation has behaved like the model up to this step. *)
+      let fits_head (unread : n list) : bool =
+        let a = Array.of_list (List.map int_of_n unread) in
+        let lim = min (Array.length a) 8192 in
+        let found = ref false in
+        for i = 0 to lim - 4 do
+          if a.(i) = 13 && a.(i+1) = 10 && a.(i+2) = 13 && a.(i+3) = 10 then found := true
+        done;
+        !found || Array.length a < 8192 in
       Buffer.add_string buf "files=0";
       (* oracle on the implementation's own observations *)
       let verdict =
@@ -140,8 +154,13 @@ let () =
           if (match split_ws impl_line with "panic" :: _ -> true | _ -> false) then "oracle=fail@panic"
           else if List.length steps <> List.length ops then "oracle=fail@shape"
           else begin
+            let agree = ref true in
             let rec go i rs ws ops steps = match ops, steps with
+              | o :: ot, s :: st when !agree && o = OReadRequest && (match s with "err" :: "HeadTooLong" :: _ -> true | _ -> false)
+                                      && i < Array.length model_steps && fits_head (fst model_steps.(i)) ->
+                ignore (ot, st, rs, ws); "oracle=fail@head-too-long-for-a-head-that-fits@" ^ string_of_int i
               | o :: ot, s :: st ->
+                if i < Array.length model_steps && String.concat " " s <> snd model_steps.(i) then agree := false;
                 let err = (match s with "err" :: name :: _ -> herr_of_name name | _ -> None) in
                 let bad_err = (match s with "err" :: name :: _ -> herr_of_name name = None | _ -> false) in
                 let okind = (match s with
